@@ -102,6 +102,8 @@ def run_batch(args):
             faulthandler.cancel_dump_traceback_later()
             return {'harness_error': 'run %d seed %d:\n%s' % (run, seed, traceback.format_exc()), 'start': start}
         faulthandler.cancel_dump_traceback_later()
+        if t2 - t0 > float(os.environ.get('VERIF_SLOW_S', '1e9')):
+            sys.stderr.write('slow world: %s run %d seed %d: generate %.1fs execute %.1fs\n' % (prop, run, base_seed, t1 - t0, t2 - t1))
         agg['gen_s'] += t1 - t0
         agg['exec_s'] += t2 - t1
         s = res.summary()
